@@ -516,8 +516,10 @@ void MEDDLY::forwd_dfs_by_events_mt::saturateHelper(unpacked_node& nb)
   for (unsigned ei = 0; ei < nEventsAtThisLevel; ei++) {
     Ru[ei] = unpacked_node::New(relF, FULL_ONLY);
     int eventLevel = events[ei].getLevel();
-    MEDDLY_DCASSERT(ABS(eventLevel) == nb.getLevel());
-    if (eventLevel<0) {
+    MEDDLY_DCASSERT(ABS(eventLevel) <= nb.getLevel());
+    // The union of the relations filed under this level may skip the
+    // unprimed level, or (by levels) the whole level.
+    if (eventLevel != nb.getLevel()) {
       Ru[ei]->initRedundant(nb.getLevel(), events[ei].getNode());
     } else {
       Ru[ei]->initFromNode(events[ei].getNode());
@@ -755,8 +757,10 @@ void MEDDLY::bckwd_dfs_by_events_mt::saturateHelper(unpacked_node& nb)
   for (unsigned ei = 0; ei < nEventsAtThisLevel; ei++) {
     Ru[ei] = unpacked_node::New(relF, FULL_ONLY);
     int eventLevel = events[ei].getLevel();
-    MEDDLY_DCASSERT(ABS(eventLevel) == nb.getLevel());
-    if (eventLevel<0) {
+    MEDDLY_DCASSERT(ABS(eventLevel) <= nb.getLevel());
+    // The union of the relations filed under this level may skip the
+    // unprimed level, or (by levels) the whole level.
+    if (eventLevel != nb.getLevel()) {
       Ru[ei]->initRedundant(nb.getLevel(), events[ei].getNode());
     } else {
       Ru[ei]->initFromNode(events[ei].getNode());
